@@ -275,6 +275,9 @@ func outputDiscipline(v *Verdict, d *DeclSpec, r *OpResult, label string, argv [
 		return
 	}
 	msg := string(r.Msg)
+	if strings.HasPrefix(msg, "<Error() panicked") {
+		return // the error value has no text of its own (typed nil): what is printed for it is not fixed
+	}
 	if faulty {
 		// the descriptor failed: what did arrive must be a prefix of the full text
 		full := string(ref.Fd2)
